@@ -41,7 +41,7 @@ def cases(tier, seed):
     r.shuffle(out)
     if tier == "quick":
         return out[:24]
-    return out[:420]
+    return out
 
 
 def build(root, d):
